@@ -357,6 +357,15 @@ func (x *Exec) externCall(f *frame, in ssa.Instruction, callee *ssa.Function, c 
 		}
 	}
 	// loggers and other effect-free helpers
+	if strings.HasPrefix(name, "sync.OnceFunc") || strings.HasPrefix(name, "sync.OnceValue") {
+		// sync.OnceFunc(f): a non-nil function that runs f at most once (the call itself runs nothing)
+		x.assumed["extern "+name+": returns a non-nil function that runs its argument at most once; the call itself has no effect"] = true
+		r := x.resultVal(st, callee.Signature, "once")
+		if r.T != "" {
+			x.assume(st, not(eq(r.T, "0")))
+		}
+		return r, true
+	}
 	if isEffectFree(name) {
 		x.assumed["extern "+name+": no effect on modelled state (logging/formatting/tracing)"] = true
 		return x.resultVal(st, callee.Signature, "eff"), true
